@@ -81,7 +81,7 @@ func c12SymLeaves() c12Leaves {
 func c12Build(lv c12Leaves) c12T {
 	inner := c12Inner{N: lv.n, S: lv.s2, p: 1}
 	t := c12T{I: lv.i, U8: lv.u8, F32: 1.5, B: lv.b, S: lv.s, Sub: inner, L: []int16{lv.l0, lv.l1},
-		M: map[string]uint16{"k": lv.mk, "K": 7}, hidden: "h", C12Emb: C12Emb{Q: 6}}
+		M: map[string]uint16{"k": lv.mk, "K": 7, "": 3}, hidden: "h", C12Emb: C12Emb{Q: 6}}
 	if !lv.pNil {
 		in2 := inner
 		t.P = &in2
@@ -162,6 +162,7 @@ func HarnessC12Shape() {
 		{"v.M[\"k\"]", "65535", true},
 		{"v.M.K", "7", true}, // a map may hold two keys that differ only in the case of the first letter
 		{"v.M[\"K\"]", "7", true},
+		{"v.M[\"\"]", "3", true}, // the empty string is a key like any other
 		{"v.C12Emb.Q", "6", true},
 		{"v.hidden", "", false},
 		{"v.Sub.p", "", false},
